@@ -157,6 +157,11 @@ func (p Params) Body() func() {
 			b.Close()
 		}
 		// Close has returned: background work stopped, source closed exactly once
+		hx.Atomically(func() {
+			if src.Closes == 0 {
+				hx.Fail("source/not-closed-when-Close-returned", "Close of the batch stream has returned but the source stream has not been closed yet")
+			}
+		})
 		hx.QuiesceNow()
 		live := hx.Live()
 		n := 0
